@@ -47,7 +47,9 @@ Inductive vclass :=
 | VBreakOutsideLoop | VBreakInContinuing | VContinueOutsideLoop | VContinueInContinuing
 | VReturnInContinuing | VKillInContinuing
 (* validateEntryPoints *)
-| VEpEmptyName | VEpDupName | VEpVertexNoResult | VEpVertexNoPosition | VEpWorkgroupZero.
+| VEpEmptyName | VEpDupName | VEpVertexNoResult | VEpVertexNoPosition | VEpWorkgroupZero
+(* only in the repaired validator (ValidatorModelFixed.v): duplicate (group,binding) within one entry point *)
+| VEpDupBinding.
 
 Record verror := mkverr {
   ve_class : vclass;
@@ -233,6 +235,22 @@ Fixpoint vcases (E : venv) (d : nat) (c : bool) (i : Z) (has_default : bool)
 Definition env_of (m : module) (f : func) : venv :=
   mkvenv (f_name f) (List.length (m_types m)) (List.length (m_constants m)) (List.length (m_globals m)) (List.length (m_functions m))
          (List.length (f_args f)) (List.length (f_locals f)) (List.length (f_exprs f)).
+
+(* everything validateFunction checks before the body *)
+Definition vfunction_head (m : module) (f : func) : list verror :=
+  let E := env_of m f in
+  flat_map (fun a => when (negb (valid_h (fa_type a) (e_ntypes E))) (err_fn (f_name f) VArgType)) (f_args f)
+  ++ match f_result f with
+     | Some r => when (negb (valid_h (fr_type r) (e_ntypes E))) (err_fn (f_name f) VResultType)
+     | None => []
+     end
+  ++ flat_map (fun l => when (negb (valid_h (lv_type l) (e_ntypes E))) (err_fn (f_name f) VLocalType)
+                        ++ match lv_init l with
+                           | Some h => when (negb (valid_h h (e_nexprs E))) (err_fn (f_name f) VLocalInit)
+                           | None => []
+                           end) (f_locals f)
+  ++ vexprs_from E O (f_exprs f).
+
 
 Definition vfunction (m : module) (f : func) : list verror :=
   let E := env_of m f in
